@@ -74,7 +74,7 @@ package browse
 //@   at call invoke:(github.com/mholt/archiver/v3.Writer).Write assert [archive_sink_not_hidden] !bc.Fs.IsHidden(info)
 //@   // C02/C03: what is under a hidden directory (an `internal` location is put on the hide list by its setup) is hidden with
 //@   // it: the walk does not descend into a hidden directory (the walker skips a directory whose visit returns SkipDir)
-//@   ensures [a_hidden_directory_is_not_descended_into] (err == nil && info != nil && path != dirPath && bc.Fs.IsHidden(info) && info.IsDir()) ==> result != nil
+//@   ensures [a_hidden_directory_is_not_descended_into] (err == nil && info != nil && path != dirPath && bc.Fs.IsHidden(info) && info.IsDir()) ==> result == filepath.SkipDir
 
 //@ unit setup_sweep props=C11,C08 files=setup.go nilchecks=on nonnil_params=on dispenser_variants=on filter=`.`
 //@ // Safety sweep of this directive's setup code: index, slice, division, nil-map store, nil dereference, explicit panic,
